@@ -130,10 +130,11 @@ class FetchAttribute(Parseable[bytes]):
     _attrname_pattern = re.compile(br' *([^\s\[<()]+)')
     _section_start_pattern = re.compile(br' *\[ *')
     _section_end_pattern = re.compile(br' *\]')
-    _partial_pattern = re.compile(br'< *(\d+) *\. *(\d+) *>')
+    _partial_pattern = re.compile(br'< *(\d{1,20}) *\. *(\d{1,20}) *>')
     _field_name = re.compile(br'[\x21-\x39\x3b-\x7e]+')
 
-    _sec_part_pattern = re.compile(br'([1-9]\d* *(?:\. *[1-9]\d*)*) *(\.)? *')
+    _sec_part_pattern = re.compile(
+        br'([1-9]\d{0,19}(?!\d) *(?:\. *[1-9]\d{0,19}(?!\d))*) *(\.)? *')
 
     def __init__(self, attribute: bytes,
                  section: FetchAttribute.Section | None = None,
